@@ -53,6 +53,7 @@ Definition s_recognizer : str := Eval vm_compute in bs "recognizer".
 Definition s_import_preset : str := Eval vm_compute in bs "import_preset".
 Definition s_bindings : str := Eval vm_compute in bs "bindings".
 Definition s_bindings_add : str := Eval vm_compute in bs "bindings/+".
+Definition s_build_info : str := Eval vm_compute in bs "__build_info".
 Definition c_slash : byte := "/"%byte.
 Definition c_at : byte := "@"%byte.
 Definition c_colon : byte := ":"%byte.
